@@ -56,6 +56,15 @@ _NON_DETERMINISTIC_OPS = frozenset(
     }
 )
 
+# Ops whose meaning changed at the given opset version while the reference implementation
+# used for folding only implements the newer one: before opset 13 these ops coerce their
+# input to 2D around `axis` (default 1) instead of working along a single axis (default -1).
+_REFERENCE_SEMANTICS_SINCE_VERSION = {
+    "Softmax": 13,
+    "LogSoftmax": 13,
+    "Hardmax": 13,
+}
+
 # A list of ops to always fold regardless of their input size limits, as long as
 # they are the single consumer of the large input tensors
 _DEFAULT_ALWAYS_FOLD_OPS = frozenset(
@@ -1269,6 +1278,18 @@ class FoldConstantsPass(ir.passes.InPlacePass):
                 node.name,
                 node.domain,
                 node.op_type,
+            )
+            return None
+
+        if utils.is_onnx_domain(node.domain) and version < _REFERENCE_SEMANTICS_SINCE_VERSION.get(
+            node.op_type, 0
+        ):
+            logger.info(
+                "Skipping constant folding for %r (%s) because opset %s predates the semantics "
+                "of the reference implementation",
+                node.name,
+                node.op_type,
+                version,
             )
             return None
 
